@@ -76,6 +76,37 @@ Expl(r, x) == SumSeq([i \in 1..Len(Routes(r)) |-> r.weights[i] * Uses(r, x, Rout
 Trav(r, x) == SumSeq([i \in 1..Len(Routes(r)) |-> Uses(r, x, Routes(r)[i])])
 SlackOn(r, x) == SumSeq([i \in 1..Len(Routes(r)) |-> r.slacks[i] * Uses(r, x, Routes(r)[i])])
 
+(***************************************************************************)
+(* Path-length factors (kMinPathError): the slack of a path counts with    *)
+(* the factor of the range its LENGTH falls in.  The length of a path is   *)
+(* the sum of the lengths of its edges in the graph the model works on,    *)
+(* INCLUDING the edges from the global source and to the global sink (1    *)
+(* each): without a length attribute every edge counts 1 (in node mode the *)
+(* node edges and the link edges of the expansion); with one, an element   *)
+(* without the attribute counts 1, link edges of the expansion count 0     *)
+(* unless the user's edge has a length itself.                             *)
+(***************************************************************************)
+UsesLenAttr(r) == "lenattr" \in DOMAIN r /\ r.lenattr = TRUE
+RouteLen(r, p) ==
+  2 + (IF NodeMode(r)
+       THEN IF UsesLenAttr(r)
+            THEN SumSeq([i \in 1..Len(p) |-> NodeLenOr(r, p[i], 1)]) + SumSeq([i \in 1..(Len(p) - 1) |-> EdgeLenOr(r, <<p[i], p[i + 1]>>, 0)])
+            ELSE 2 * Len(p) - 1
+       ELSE IF UsesLenAttr(r)
+            THEN SumSeq([i \in 1..(Len(p) - 1) |-> EdgeLenOr(r, <<p[i], p[i + 1]>>, 1)])
+            ELSE Len(p) - 1)
+RangeOf(r, L) == {i \in 1..Len(r.plr) : r.plr[i][1] <= L /\ L <= r.plr[i][2]}
+HasFactor(r, p) == RangeOf(r, RouteLen(r, p)) # {}
+FactorOf(r, p) == r.plf[CHOOSE i \in RangeOf(r, RouteLen(r, p)) : TRUE]      \* <<n, d>>
+PlfDen(r) == LET RECURSIVE M(_)
+                 M(i) == IF i = 0 THEN 1 ELSE M(i - 1) * r.plf[i][2]
+             IN M(Len(r.plf))
+(* sum over routes of slack * factor * traversals, times PlfDen(r) (an integer) *)
+ScaledSlackOnTimesDen(r, x) ==
+  SumSeq([i \in 1..Len(Routes(r)) |->
+            IF Len(Routes(r)[i]) = 0 THEN 0
+            ELSE (r.slacks[i] * FactorOf(r, Routes(r)[i])[1] * PlfDen(r) * Uses(r, x, Routes(r)[i])) \div FactorOf(r, Routes(r)[i])[2]])
+
 (* the user-graph element an entry [u, v, err, type] of the reported edge errors speaks about
    (node mode: the expanded edge (v.0, v.1) stands for node v; link edges stand for nothing) *)
 ErrElem(r, t) ==
@@ -109,7 +140,7 @@ Applicable(c, r) ==
     [] c = "WeightTypes"     -> HasSol(r) /\ r.cls \notin CoverCls /\ r.has_weights = TRUE
     [] c = "Covers"          -> HasSol(r) /\ r.cls \in CoverCls
     [] c = "MPEInequality"   -> HasSol(r) /\ r.cls \in MPECls /\ WeightsAligned(r)
-                                /\ r.has_slacks = TRUE /\ Len(r.slacks) = Len(Routes(r)) /\ r.plr = <<>>
+                                /\ r.has_slacks = TRUE /\ Len(r.slacks) = Len(Routes(r))
     [] c = "MPEObjective"    -> HasSol(r) /\ r.cls \in MPECls /\ r.has_slacks = TRUE /\ r.obj # NONE
     [] c = "LAEErrors"       -> HasSol(r) /\ r.cls \in LAECls /\ WeightsAligned(r) /\ r.has_errs = TRUE
     [] c = "LAEObjective"    -> HasSol(r) /\ r.cls \in LAECls /\ WeightsAligned(r) /\ r.obj # NONE
@@ -150,7 +181,7 @@ Holds(c, r) ==
                                   /\ \A i \in 1..Len(r.slacks) : r.slacks[i] # NONE
     [] c = "NonNegative" -> /\ \A i \in 1..Len(r.weights) : r.weights[i] >= -Tol(r)
                             /\ \A i \in 1..Len(r.slacks)  : r.slacks[i]  >= -Tol(r)
-    [] c = "AtMostK"    -> Len(Routes(r)) <= r.k
+    [] c = "AtMostK"    -> Cardinality(NonEmptyIdx(r)) <= r.k       \* (empty layers of a weight-superset model are not routes)
     [] c = "ExactlyK"   -> Len(Routes(r)) = r.k
     [] c = "NoEmptyRoute" -> \A i \in 1..Len(Routes(r)) : Len(Routes(r)[i]) >= 1
     [] c = "GetSolutionReturns" -> r.got_solution = TRUE /\ r.sol_exc = "none"
@@ -159,9 +190,17 @@ Holds(c, r) ==
     [] c = "WeightTypes" -> \A i \in 1..Len(r.wtypes) : r.wtypes[i] = r.wt
     [] c = "Covers"     -> \A x \in Required(r) : Trav(r, x) >= 1
     [] c = "MPEInequality" ->
-          \A x \in Required(r) :
-             LET s == ScaleOf(r, x) IN
-             Abs(F(r)[x] - Expl(r, x)) * s[1] <= (SlackOn(r, x) + Tol(r) * Max2(1, 2 * Trav(r, x))) * s[2]
+          IF r.plr = <<>>
+          THEN \A x \in Required(r) :
+                 LET s == ScaleOf(r, x) IN
+                 Abs(F(r)[x] - Expl(r, x)) * s[1] <= (SlackOn(r, x) + Tol(r) * Max2(1, 2 * Trav(r, x))) * s[2]
+          ELSE \* with path-length factors: every returned path has a length some range contains, and the slacks count
+               \* with the factor of that range
+               /\ \A i \in NonEmptyIdx(r) : HasFactor(r, Routes(r)[i])
+               /\ \A x \in Required(r) :
+                    LET s == ScaleOf(r, x) IN
+                    Abs(F(r)[x] - Expl(r, x)) * s[1] * PlfDen(r)
+                      <= (ScaledSlackOnTimesDen(r, x) + Tol(r) * PlfDen(r) * Max2(1, 2 * Trav(r, x))) * s[2]
     [] c = "MPEObjective" -> Abs(r.obj - SumSeq(r.slacks)) <= Tol(r) * Max2(1, Len(r.slacks))
     [] c = "LAEErrors"  ->
           \* every reported per-element error equals the recomputed |f - explained|
